@@ -295,6 +295,7 @@ pub fn native(cfg: &cgv_core::fw::RunCfg, extra: &mut cgv_core::fw::Extra) {
     let mut evals = 0u64;
     let mut seen = std::collections::HashSet::new();
     let mut kinds = [0u64; 4];
+    let mut worst_zone = 0f64;
     for i in 0..n {
         let mut rng = Rng::for_case(cfg.seed, "c15_native", i);
         // one case in three: a direction hugging a coordinate axis (tilted by 1e-6 .. 3e-2 in the
@@ -332,7 +333,11 @@ pub fn native(cfg: &cgv_core::fw::RunCfg, extra: &mut cgv_core::fw::Extra) {
         match kind {
             0 | 1 => {
                 // inside a zone: theta in 1e-12 .. 10^-7.5 from parallel (0) or antiparallel (1)
-                let d = 10f64.powf(rng.uniform(-12.0, -7.5));
+                // half of the cases inside the zone (1e-12 .. 10^-7.5), half just outside it
+                // (10^-7 .. 10^-3), where the result has to be a proper rotation again although
+                // k + a.b is still dominated by cancellation
+                let outside = rng.bool();
+                let d = if outside { 10f64.powf(rng.uniform(-7.0, -3.0)) } else { 10f64.powf(rng.uniform(-12.0, -7.5)) };
                 let th = if kind == 0 { d } else { std::f64::consts::PI - d };
                 let b = a * th.cos() + nrm.cross(a) * th.sin();
                 let r = cgv_core::fw::catch(|| {
@@ -346,6 +351,7 @@ pub fn native(cfg: &cgv_core::fw::RunCfg, extra: &mut cgv_core::fw::Extra) {
                         for (name, q) in [("between_vectors", q), ("from_arc", qa)] {
                             let ra = q * a;
                             let err = (ra - b).magnitude();
+                            worst_zone = worst_zone.max(err).max((q.magnitude2() - 1.0).abs());
                             if !(err <= 2e-7) || !((q.magnitude2() - 1.0).abs() <= 1e-6) {
                                 bad = Some(format!("{name} in the tolerance zone: |r(a) - b| = {err:e}, |q|^2 = {}", q.magnitude2()));
                             }
@@ -431,7 +437,7 @@ pub fn native(cfg: &cgv_core::fw::RunCfg, extra: &mut cgv_core::fw::Extra) {
     extra.distinct_nontrivial += seen.len() as u64;
     extra.sections.insert(
         "native_tolerance_zones_and_opposite_vectors".into(),
-        json!({"cases": evals, "near_parallel": kinds[0], "near_antiparallel": kinds[1], "exactly_opposite": kinds[2] + kinds[3],
+        json!({"cases": evals, "near_parallel": kinds[0], "near_antiparallel": kinds[1], "exactly_opposite": kinds[2] + kinds[3], "worst_error_in_and_next_to_the_zones": worst_zone,
                "oracle": "f64: |r(a)-b| <= 2e-7 inside the zones; opposite vectors: scalar part <= 5e-8, axis.a <= 1e-9, fallback axis honoured"}),
     );
 }
